@@ -27,18 +27,18 @@ theorem tr_ok (C : Cx) (hwt : WT C.sch C.env) (hL : LikeOK C.L C.d) : ∀ (e : E
     intro m _ htr
     simp only [tr] at htr; injection htr with htr; subst htr
     exact ⟨⟨some (.int i), by simp [py], by intro x hx; injection hx with hx; subst hx; simp [hasTy], by simp [Cx.ev, eval, litVal, encV, encS], by simp⟩,
-      by simp [valueSorted]⟩
+      by simp [valueSorted, isAttr]⟩
   | cStr i =>
     intro m _ htr
     simp only [tr] at htr; injection htr with htr; subst htr
     exact ⟨⟨some (.str i), by simp [py], by intro x hx; injection hx with hx; subst hx; simp [hasTy], by simp [Cx.ev, eval, litVal, encV, encS], by simp⟩,
-      by simp [valueSorted]⟩
+      by simp [valueSorted, isAttr]⟩
   | cBool i =>
     intro m _ htr
     simp only [tr] at htr; injection htr with htr; subst htr
     exact ⟨⟨some (.bool i), by simp [py], by intro x hx; injection hx with hx; subst hx; simp [hasTy],
         by cases h : C.d.isPg <;> simp [Cx.ev, eval, litVal, encV, encS, h, boolInt], by simp⟩,
-      by simp [valueSorted]⟩
+      by simp [valueSorted, isAttr]⟩
   | cNone => intro m hf _; simp [frag] at hf
   | param n =>
     intro m _ htr
@@ -47,14 +47,151 @@ theorem tr_ok (C : Cx) (hwt : WT C.sch C.env) (hL : LikeOK C.L C.d) : ∀ (e : E
     · rename_i t hsch
       injection htr with htr; subst htr
       exact ⟨⟨some (C.env.par n), by simp [py], by intro x hx; injection hx with hx; subst hx; exact hwt.par n t hsch,
-        by simp [Cx.ev, eval, senv, encV], by simp⟩, by simp [valueSorted]⟩
+        by simp [Cx.ev, eval, senv, encV], by simp⟩, by simp [valueSorted, isAttr]⟩
     · cases htr
-  | cmp op l r ihl ihr => sorry
+  | cmp op l r ihl ihr =>
+    intro m hf htr
+    simp only [frag] at hf
+    simp only [tr] at htr
+    by_cases hrn : isNoneLit r = true
+    · -- `l == None`, `l is None`, …
+      have hr : r = .cNone := by cases r <;> simp_all [isNoneLit]
+      subst hr
+      simp only [isNoneLit, if_true, Bool.and_eq_true, Bool.not_eq_true'] at hf
+      obtain ⟨⟨ho, hsl⟩, hfl⟩ := hf
+      cases hl : tr C.sch C.d l with
+      | error x => simp [hl] at htr
+      | ok ml =>
+        obtain ⟨c, t, n, s, rfl, _, v, hpy, hty, hev, hnn⟩ := (ihl ml hfl hl).val hsl
+        simp only [hl, tr] at htr
+        have hne : (MTy.ofTy t == MTy.none) = false := by cases t <;> rfl
+        refine ⟨?_, ?_⟩
+        · cases op <;> simp [isOrd] at ho <;>
+            simp [cmpInit, Monad.ty, hne, comparable, coerceCmp, Monad.getsql, Monad.nullable] at htr <;> subst htr <;>
+            simp only [MonadOK, Monad.getsql, cmpSql] <;>
+            refine ⟨_, (by first | exact evc_isNull C _ _ hev | exact evc_isNotNull C _ _ hev), ?_, fun _ => ?_⟩ <;>
+            simp [py, isNoneLit, hpy, PyR.asV, PyR.asK, encV_eq_null, bne, R.refl]
+        · cases op <;> simp [isOrd] at ho <;>
+            simp [cmpInit, Monad.ty, hne, comparable, coerceCmp] at htr <;> subst htr <;> simp [valueSorted, Monad.isCond]
+    · have hrn' : isNoneLit r = false := by simpa using hrn
+      by_cases hln : isNoneLit l = true
+      · -- `None == r`, …
+        have hl : l = .cNone := by cases l <;> simp_all [isNoneLit]
+        subst hl
+        simp only [hrn', Bool.false_eq_true, if_false] at hf
+        simp only [isNoneLit, if_true, Bool.and_eq_true, Bool.not_eq_true'] at hf
+        obtain ⟨⟨ho, hsr⟩, hfr⟩ := hf
+        cases hr : tr C.sch C.d r with
+        | error x => simp [hr, tr] at htr
+        | ok mr =>
+          obtain ⟨c, t, n, s, rfl, _, v, hpy, hty, hev, hnn⟩ := (ihr mr hfr hr).val hsr
+          simp only [hr, tr] at htr
+          have hne : (MTy.ofTy t == MTy.none) = false := by cases t <;> rfl
+          refine ⟨?_, ?_⟩
+          · cases op <;> simp [isOrd] at ho <;>
+              simp [cmpInit, Monad.ty, hne, comparable, coerceCmp, Monad.getsql, Monad.nullable] at htr <;> subst htr <;>
+              simp only [MonadOK, Monad.getsql, cmpSql] <;>
+              refine ⟨_, (by first | exact evc_isNull C _ _ hev | exact evc_isNotNull C _ _ hev), ?_, fun _ => ?_⟩ <;>
+              simp [py, isNoneLit, hrn', hpy, PyR.asV, PyR.asK, encV_eq_null, bne, R.refl]
+          · cases op <;> simp [isOrd] at ho <;>
+              simp [cmpInit, Monad.ty, hne, comparable, coerceCmp] at htr <;> subst htr <;> simp [valueSorted, Monad.isCond]
+      · have hln' : isNoneLit l = false := by simpa using hln
+        simp only [hrn', hln', Bool.false_eq_true, if_false, Bool.and_eq_true, Bool.not_eq_true'] at hf
+        obtain ⟨⟨⟨⟨⟨ho, hsl⟩, hsr⟩, hfl⟩, hfr⟩, hcl⟩ := hf
+        cases hl : tr C.sch C.d l with
+        | error x => simp [hl] at htr
+        | ok ml =>
+          cases hr : tr C.sch C.d r with
+          | error x => simp [hl, hr] at htr
+          | ok mr =>
+            obtain ⟨c1, t1, n1, s1, rfl, _, v1, hpy1, hty1, hev1, hnn1⟩ := (ihl ml hfl hl).val hsl
+            obtain ⟨c2, t2, n2, s2, rfl, _, v2, hpy2, hty2, hev2, hnn2⟩ := (ihr mr hfr hr).val hsr
+            simp only [hl, hr] at htr
+            rw [trTy_of_ok hl, trTy_of_ok hr] at hcl
+            simp only [Monad.ty] at hcl
+            have hne1 : (MTy.ofTy t1 == MTy.none) = false := by cases t1 <;> rfl
+            have hne2 : (MTy.ofTy t2 == MTy.none) = false := by cases t2 <;> rfl
+            have hcomp : ∀ o, comparable (MTy.ofTy t1) (MTy.ofTy t2) o = true ∨ isIs o = true := by
+              intro o; cases t1 <;> cases t2 <;> cases o <;> simp_all [comparable, MTy.ofTy, sameClass, MTy.isNum, isIs]
+            sorry
   | inList ng x items ih => sorry
   | like k ng pat x ih => sorry
-  | and l r ihl ihr => sorry
-  | or l r ihl ihr => sorry
-  | not x ih => sorry
+  | and l r ihl ihr =>
+    intro m hf htr
+    simp only [frag, Bool.and_eq_true] at hf
+    simp only [tr] at htr
+    cases hl : tr C.sch C.d l with
+    | error x => simp [hl] at htr
+    | ok ml =>
+      cases hr : tr C.sch C.d r with
+      | error x => simp [hl, hr] at htr
+      | ok mr =>
+        simp only [hl, hr] at htr; injection htr with htr; subst htr
+        obtain ⟨⟨s1, e1, r1, x1⟩, _⟩ := (ihl ml hf.1 hl).condOf
+        obtain ⟨⟨s2, e2, r2, x2⟩, _⟩ := (ihr mr hf.2 hr).condOf
+        refine ⟨?_, by simp [valueSorted, Monad.isCond]⟩
+        refine ⟨K.and s1 s2, ?_, ?_, ?_⟩
+        · simp only [Monad.getsql, Cx.evc, evalCond_and, evalAnd_append, evalAnd_flat]
+          simp only [Cx.evc] at e1 e2; simp [e1, e2]
+        · simpa [py, PyR.asK] using R.and r1 r2
+        · intro hx; simp only [exact, Bool.and_eq_true] at hx
+          simp [py, PyR.asK, x1 hx.1, x2 hx.2]
+  | or l r ihl ihr =>
+    intro m hf htr
+    simp only [frag, Bool.and_eq_true] at hf
+    simp only [tr] at htr
+    cases hl : tr C.sch C.d l with
+    | error x => simp [hl] at htr
+    | ok ml =>
+      cases hr : tr C.sch C.d r with
+      | error x => simp [hl, hr] at htr
+      | ok mr =>
+        simp only [hl, hr] at htr; injection htr with htr; subst htr
+        obtain ⟨⟨s1, e1, r1, x1⟩, _⟩ := (ihl ml hf.1 hl).condOf
+        obtain ⟨⟨s2, e2, r2, x2⟩, _⟩ := (ihr mr hf.2 hr).condOf
+        refine ⟨?_, by simp [valueSorted, Monad.isCond]⟩
+        refine ⟨K.or s1 s2, ?_, ?_, ?_⟩
+        · simp only [Monad.getsql, Cx.evc, evalCond_or, evalOr_append, evalOr_flat]
+          simp only [Cx.evc] at e1 e2; simp [e1, e2]
+        · simpa [py, PyR.asK] using R.or r1 r2
+        · intro hx; simp only [exact, Bool.and_eq_true] at hx
+          simp [py, PyR.asK, x1 hx.1, x2 hx.2]
+  | not x ih =>
+    intro m hf htr
+    simp only [frag, Bool.and_eq_true] at hf
+    simp only [tr] at htr
+    cases hx : tr C.sch C.d x with
+    | error x => simp [hx] at htr
+    | ok mx =>
+      simp only [hx] at htr; injection htr with htr; subst htr
+      have g := ih mx hf.1 hx
+      by_cases hs : valueSorted x = true
+      · obtain ⟨c, t, n, s, rfl, hc, hv⟩ := g.val hs
+        have hpg : C.d.isPg = true → t = .bool → c ≠ .attr → nn C.sch x = true := by
+          intro h1 h2 h3
+          have h4 := hf.2; simp only [hs, if_true] at h4
+          have hty : trTy C.sch C.d x = .bool := by rw [trTy_of_ok hx, h2]; rfl
+          have hna : isAttr x = false := by
+            cases hh : isAttr x with
+            | false => rfl
+            | true => exact absurd (hc.2 hh) h3
+          simpa [h1, hty, hna] using h4
+        have hn := negate_val (cls := c) hs hv hpg
+        have hsh := negate_val_shape C.d c t n s
+        refine ⟨?_, by simpa [valueSorted] using hsh⟩
+        rw [MonadOK_of_isCond hsh]
+        exact ⟨_, hn, by simpa [py, PyR.asK] using R.refl _, fun _ => by simp [py, PyR.asK]⟩
+      · have hs' : valueSorted x = false := by simpa using hs
+        have hex : exact C.sch x = true := by have h4 := hf.2; simpa [hs'] using h4
+        obtain ⟨g1, g2⟩ := g
+        simp only [hs', Bool.false_eq_true, if_false] at g2
+        obtain ⟨hn, hsh⟩ := negate_cond C mx g2
+        rw [MonadOK_of_isCond g2] at g1
+        obtain ⟨s1, e1, r1, x1⟩ := g1
+        refine ⟨?_, by simpa [valueSorted] using hsh⟩
+        rw [MonadOK_of_isCond hsh]
+        refine ⟨s1.not, by rw [hn, e1]; rfl, ?_, fun _ => by simp [py, PyR.asK, x1 hex]⟩
+        simpa [py, PyR.asK, x1 hex] using R.refl _
   | bin op l r ihl ihr => sorry
   | neg x ih => sorry
   | abs x ih => sorry
